@@ -74,13 +74,15 @@ def run(chk):
     # ---- H: handle / final raise --------------------------------------
     body = body_without_doc(fn)
     handle = None
-    for st in body:
-        if isinstance(st, ast.FunctionDef):
-            # the reporting helper: raises under fail_fast, appends otherwise
-            if contains_raise([st]):
-                handle = st
-    if handle is None:
-        raise AnalysisError("lint(): reporting helper (nested def that raises) not found", FILE, fn.lineno)
+    nested = [st for st in body if isinstance(st, ast.FunctionDef)]
+    best = -1
+    for st in nested:
+        # the reporting helper is the nested def the guards call
+        uses = sum(1 for n in walk_no_nested(fn) if isinstance(n, ast.Call) and isinstance(n.func, ast.Name) and n.func.id == st.name)
+        if uses > best:
+            best, handle = uses, st
+    if handle is None or best < 3:
+        raise AnalysisError("lint(): reporting helper (nested def called from the guards) not found", FILE, fn.lineno)
     hname = handle.name
     # under fail_fast: raise ValueError
     ok_raise = False
